@@ -17,7 +17,7 @@ RelevantTo(st) ==
       [] st \in Returns -> {"remove_explicit_return_none"}
       [] st \in {<<"raise0">>, <<"raiseargs">>, <<"raisefrom">>, <<"raiseuser">>} -> {"remove_builtin_exception_brackets"}
       [] st \in {<<"assert">>, <<"assert_bind">>} -> {"remove_asserts"}
-      [] st = <<"dbg_bind">> -> {"remove_debug"}
+      [] st \in {<<"dbg_bind">>, <<"dbg_global">>} -> {"remove_debug"}
       [] st \in DebugTruthy \cup DebugOther \cup {<<"dbg_else">>, <<"dbg_elif">>} -> {"remove_debug"}
       [] OTHER -> {}
 Relevant(blk) == UNION { RelevantTo(blk[k]) : k \in DOMAIN blk }
@@ -42,7 +42,7 @@ BinderKept == \A b \in Allowed(opts, ctx, env, blk) :
                  => \E k \in DOMAIN b : b[k] \in Binders
 \* properties of S itself
 OffMeansUntouched == opts = {} => Allowed(opts, ctx, env, blk) = {blk}
-NonEmpty == \A b \in Allowed(opts, ctx, env, blk) : b # <<>> \/ IsModule(ctx)
+NonEmpty == \A b \in Allowed(opts, ctx, env, blk) : b # <<>> \/ IsModule(ctx) \/ HasSibling(ctx)
 Flatten(b) == LET imps == SelectSeq(b, LAMBDA st : st[1] = "imp") IN imps
 RECURSIVE Aliases(_)
 Aliases(b) == IF b = <<>> THEN <<>> ELSE (IF Head(b)[1] = "imp" THEN Tail(Head(b)) ELSE IF Head(b)[1] = "from" THEN Tail(Tail(Head(b))) ELSE <<>>) \o Aliases(Tail(b))
